@@ -18,6 +18,7 @@ func C07(r *h.Run) {
 	r.Model("c07case", "c07_ok")
 	r.Sum.Rule = "crafted *http.Request values at ServeHTTP with a recording writer: a structured-valid stream and a malformed stream (method, HTTP version, Content-Type near misses, timeout headers with boundary values, request/accept encodings known and unknown, bodies with bad flags, length lies, truncation, garbage, compressed flag without encoding, undecodable payloads, oversize messages, transport failures) x 4 RPC kinds x {no read limit, limit}; counters in user code. Oracle: no panic, returns within the watchdog, at most one invocation, only decodable messages reach user code, documented codes; every response where a protocol was selected is parsed by the Coq spec reader. distinct = distinct request"
 	rng := r.Rng.Fork("c07")
+	r.OracleFamily("wellformed", "the response to this request is not well-formed for the selected protocol under the strictly spec-following reader (SpecWire.v)")
 	protos := []string{"connect", "grpc", "grpcweb"}
 	kinds := []string{"unary", "client", "server", "bidi"}
 	timeouts := []string{"", "", "", "5000", "1", "0", "abc", "-5", "99999999999", "5S", "1n", "5s", "S", "100000000n", "+5S"}
@@ -44,7 +45,8 @@ func C07(r *h.Run) {
 		}
 		ct := cfg.contentType(unary)
 		if rng.Intn(10) == 0 {
-			ct = []string{"", "text/plain", ct + "x", strings.ToUpper(ct), "application/grpc", "application/json", "application/proto"}[rng.Intn(7)]
+			ct = []string{"", "text/plain", ct + "x", strings.ToUpper(ct), "application/grpc", "application/json", "application/proto",
+				ct + "; charset=utf-8", ct + ";", ct + " ", " " + ct, ct + ",", strings.ToUpper(ct[:1]) + ct[1:]}[rng.Intn(13)]
 		}
 		th := timeouts[rng.Intn(len(timeouts))]
 		if th != "" && proto != "connect" && rng.Intn(2) == 0 {
